@@ -204,6 +204,7 @@ class SuperSpeedStreamInEndpoint(Elaboratable):
         # stop polling this endpoint until an ERDY packet is sent [USB3.2r1: 8.10.1]. We'll need
         # to send an ERDY packet to have it resume polling.
         erdy_required = Signal()
+        erdy_accepted = Signal()
 
         # Shortcut for when we need to deal with an in token.
         # Note that, for USB3, an IN token is an ACK that contains a non-zero ``number_of_packets``.
@@ -272,8 +273,16 @@ class SuperSpeedStreamInEndpoint(Elaboratable):
                 # Send our ERDY token...
                 m.d.comb += handshakes_out.send_erdy.eq(1)
 
+                # ... note when the generator has taken our request (it may still be busy with our NRDY) ...
+                with m.If(handshakes_out.ready):
+                    m.d.ss += erdy_accepted.eq(1)
+
                 # ... and once that send is complete, move on to waiting for an IN token.
-                with m.If(handshakes_out.done):
+                with m.If(handshakes_out.done & erdy_accepted):
+                    m.d.ss += [
+                        erdy_accepted  .eq(0),
+                        erdy_required  .eq(0),
+                    ]
                     m.next = "WAIT_TO_SEND"
 
 
